@@ -14,6 +14,7 @@ ImplCurrentTree ==
       emptyMutateWithGraphs |-> FALSE,
       refBeforeSpawnUnmarked |-> FALSE,
       clientLinkedDespawn |-> TRUE,
+      mapOrphansPlaceholder |-> TRUE,
       seedLeakHidden |-> FALSE,
       seedIgnoreMapping |-> FALSE,
       seedEvNoQueue |-> FALSE,
